@@ -899,6 +899,8 @@ def Array(
                     isinstance(_length, type) and issubclass(_length, DataType)
                 ):
                     _len = _length.decode(stream)
+                    if _len < 0:  # a signed count type
+                        raise DataError(f"negative number of array elements: {_len}")
                 else:
                     _len = _length
 
